@@ -265,6 +265,14 @@ class Env:
         vcls = FalsyValue if self.flavours and n % 2 == 1 else Value
         if self.flavours and self.is_async and n % 2 == 0:
             vcls = AwaitableValue
+        if out in ("ok", "res") and self.flavours and n % 3 == 2 and self.values \
+                and self.values[-1].attempt == n - 1 and self.none_result is None \
+                and not self.cfg.get("abort"):
+            # the very same object as the previous attempt's result, in a new state ("job.refresh();
+            # return job"): it now stands for this attempt
+            v = self.values[-1]
+            v.attempt, v.klass, v.ra = n, (sc["k"] if out == "res" else None), (sc["ra"] if out == "res" else NONE)
+            return v
         if out == "ok":
             v = vcls(n, None, NONE)
             self.values.append(v)
